@@ -2,6 +2,7 @@ package main
 
 import (
 	"fmt"
+	"go/token"
 	"sort"
 	"strings"
 
@@ -294,4 +295,68 @@ func ruleLinuxStartupRoutingLast(p *Prog, r *Report, rule string) {
 			"something is sent to the device after the routing file was written ("+bad+"): a failure there leaves the saved routes of a failed run")
 	}
 	r.floor(rule, "calls of writeStartupRouting in ApplyCommands", len(saves), 1)
+}
+
+// R09.14: a failed request is not repeated.
+func ruleNoRetryOnFailure(p *Prog, r *Report, rule string, pkgs map[string]bool) {
+	r.rule(rule, "A failed request ends the run: in the HTTP device packages no request ((*http.Client).Get / Do / PostForm / Post) is sent on the failure edge of an earlier request's error (`if err != nil { … Get(…) }`). The device may have executed the first one: a change command sent twice, or a commit whose repetition answers `no changes to commit`, makes the run report OK without knowing what happened.")
+	isReq := func(cs *callSite) bool {
+		switch cs.calleeName() {
+		case "(*net/http.Client).Get", "(*net/http.Client).Do", "(*net/http.Client).PostForm", "(*net/http.Client).Post":
+			return true
+		}
+		return false
+	}
+	n := 0
+	for _, fn := range allModFuncs(p) {
+		if !pkgs[pkgOfFunc(fn)] || fn.Synthetic != "" {
+			continue
+		}
+		var reqs []*callSite
+		for _, cs := range callsOf(fn) {
+			if isReq(cs) {
+				reqs = append(reqs, cs)
+			}
+		}
+		for _, rq := range reqs {
+			n++
+			// the error result
+			var errv ssa.Value
+			if v := rq.In.Value(); v != nil && v.Referrers() != nil {
+				for _, ref := range *v.Referrers() {
+					if ex, ok := ref.(*ssa.Extract); ok && isErrorType(ex.Type()) {
+						errv = ex
+					}
+				}
+			}
+			bad := ""
+			if errv != nil {
+				for _, b := range fn.Blocks {
+					i := ifOf(b)
+					if i == nil {
+						continue
+					}
+					bo, ok := i.Cond.(*ssa.BinOp)
+					if !ok || (bo.Op != token.NEQ && bo.Op != token.EQL) {
+						continue
+					}
+					if bo.X != errv && bo.Y != errv {
+						continue
+					}
+					failEdge := 0
+					if bo.Op == token.EQL {
+						failEdge = 1
+					}
+					for _, r2 := range reqs {
+						if edgeDominates(b, failEdge, r2.In.Block()) {
+							bad = p.ipos(r2.In)
+						}
+					}
+				}
+			}
+			r.add(rule, fmt.Sprintf("no-retry|%s|%d", fnDisplay(fn), n), p.ipos(rq.In), "no request is sent on the failure edge of this request in "+fnDisplay(fn), bad == "",
+				"a request is sent again after this one failed ("+bad+"): the device may have executed the first")
+		}
+	}
+	r.floor(rule, "HTTP requests examined", n, 3)
 }
